@@ -174,7 +174,7 @@ func idxgenHdrTable(file []byte) Val {
 	return hdrs
 }
 
-var c03SourceNames = []string{"bytes.Reader", "read-seeker", "plain-reader", "os.File", "reader-at", "bufio.Reader", "bytes.Buffer"}
+var c03SourceNames = []string{"bytes.Reader", "read-seeker", "plain-reader", "os.File", "reader-at", "bufio.Reader", "bytes.Buffer", "iotest.DataErrReader", "iotest.HalfReader", "iotest.OneByteReader"}
 
 func emitIdxGen(c *Ctx, kind uint64, o gOpts, file []byte, codec uint64, qs []cid.Cid, expect Val, nontrivial bool) {
 	hdrs := idxgenHdrTable(file)
@@ -222,14 +222,14 @@ func c03Malformed(c *Ctx, r *RNG, a c03Archive, qs []cid.Cid, budget int) {
 		}
 		c.Count("malformed:" + what)
 	}
-	all := []uint64{0, 1, 2, 3, 4, 5, 6}
-	noFile := []uint64{0, 1, 2, 4, 5, 6}
+	all := []uint64{0, 1, 2, 3, 4, 5, 6, 7, 8, 9}
+	noFile := []uint64{0, 1, 2, 4, 5, 6, 7, 8, 9}
 	// truncations: every prefix of a small archive, sampled otherwise
 	for k := 0; k < len(a.file); k++ {
 		if len(a.file) > 120 && !(c.Thorough && len(a.file) <= 400) && r.Intn(len(a.file)/40+1) != 0 {
 			continue
 		}
-		emit(a.file[:k], "truncated", []uint64{pick(r, all), pick(r, []uint64{2, 5, 6})})
+		emit(a.file[:k], "truncated", []uint64{pick(r, all), pick(r, []uint64{2, 5, 6, 7, 8, 9})})
 	}
 	for n := 0; n < budget; n++ {
 		g := append([]byte(nil), a.file...)
@@ -301,7 +301,7 @@ func c03Malformed(c *Ctx, r *RNG, a c03Archive, qs []cid.Cid, budget int) {
 
 func init() {
 	register("c03", func(c *Ctx) {
-		nArch := 150 * c.Scale
+		nArch := 130 * c.Scale
 		for n := 0; n < nArch; n++ {
 			r := c.R.Fork()
 			a := genC03Archive(r, c)
@@ -343,5 +343,55 @@ func init() {
 				c03Malformed(c, r, a, qs, 10)
 			}
 		}
+		// an archive with more than 16 384 indexable sections (kind idxgenbig; layer-B expectation only)
+		c03BigArchives(c)
 	})
 }
+
+func c03BigArchives(c *Ctx) {
+	descs := []c03BigDesc{{0x12, 8, 17700, 30}}
+	if c.Thorough {
+		descs = append(descs, c03BigDesc{0x13, 20, 16384 + 16384/15 + 2, 0}, c03BigDesc{0x12, 8, 40000, 500})
+	}
+	hlen := len(refPayload(nil, nil))
+	for _, d := range descs {
+		type variant struct {
+			kind, codec uint64
+			v2, storeID bool
+		}
+		vs := []variant{{0, 0x0400, false, false}, {2, 0x0401, false, false}, {7, 0x0400, true, true}, {3, 0x0401, true, true}, {0, codecInsertion, false, true}}
+		if c.Thorough {
+			for k := uint64(0); k < uint64(len(c03SourceNames)); k++ {
+				vs = append(vs, variant{k, pick(c.R, []uint64{0x0400, 0x0401}), c.R.Bool(), c.R.Bool()})
+			}
+		}
+		for _, v := range vs {
+			r := c.R.Fork()
+			o := defaultGOpts
+			o.storeID = v.storeID
+			var samples []uint64
+			sv := VL{}
+			for k := 0; k < 24; k++ {
+				s := uint64(r.Intn(d.n + d.n/10))
+				switch {
+				case k < 4 && k < d.ndup:
+					s = uint64((7 * k) % d.n) // repeated later in the payload
+				case k == 4:
+					s = 15 // an identity CID
+				case k == 5:
+					s = 16383
+				case k == 6:
+					s = 16384
+				case k == 7:
+					s = uint64(d.n - 1)
+				}
+				samples = append(samples, s)
+				sv = append(sv, VN(s))
+			}
+			in := VL{VN(v.kind), o.val(), d.val(), VN(uint64(hlen)), VN(v.codec), sv, vbool(v.v2)}
+			c.Emit("idxgenbig", in, runIdxGenBigImpl(c, v.kind, o, d, v.codec, samples, v.v2), true)
+			c.Count("archive:more-than-16384-indexed-sections")
+		}
+	}
+}
+
